@@ -79,7 +79,7 @@ CHECKS = {
     note="Trusted: rustc MIR, fact dumper, explorer. The overflow predicate itself (max_value(len) < child.pos - parent.pos) is taken as the definition of 'fits'.",
  ),
  "C06": dict(
-    technique="dominating-guard analysis (loop aware), ADT field-type query, sort-key closure inspection, def-use shape of the directory-record arguments",
+    technique="dominating-guard analysis (loop aware), ADT field-type query, sort-key closure inspection, def-use shape of the directory-record arguments, must-execute-per-iteration (back-edge dominance) and must-pass-through path rules in build()",
     design_ref="DESIGN.md §4 C06",
     text="Decides: copy_missing_tables inserts only under the not-present edge of tables.contains_key(tag) for the same tag (a "
          "supplied table is never overridden, whatever its length); FontBuilder.tables is BTreeMap<Tag,_>, directory records are "
@@ -88,7 +88,11 @@ CHECKS = {
          "bytes in build() is dominated by a covering length test (head shorter than 12 bytes cannot panic); supplied bytes are "
          "altered (Cow::to_mut) or emitted piecewise only under the guard tag == 'head' (every other table comes back byte for "
          "byte); each directory record is built from the tag, checksum_and_padding(data), the running position accumulator and "
-         "data.len() with no case-dependent offset. Padding, checksum and 0xB1B0AFBA arithmetic are value level and not decided.",
+         "data.len() with no case-dependent offset; the table checksum is pushed onto the folded accumulator on every trip of the "
+         "table loop (no table is left out of the file sum) and the directory's after it; on the head path every route to "
+         "checksum_and_padding passes, in the same trip, the store that clears bytes 8..12 whatever the Cow variant; every insertion "
+         "into the table map is keyed by the supplied tag itself (a parameter, a constant or the source record's tag), never a "
+         "function of it. The padding / checksum / 0xB1B0AFBA arithmetic itself is value level and not decided.",
     note="Trusted: rustc MIR, fact dumper. The reader side (FontRef::table_data binary search) is covered by C01's core-zone rules only.",
  ),
  "C07": dict(
